@@ -57,7 +57,10 @@ impl GroupLocalProcessor {
     fn should_merge(&self, first: &VariableAssignment, next: &mut VariableAssignment) -> bool {
         let first_value_count = first.values_len();
 
-        if first.variables_len() > first_value_count && first_value_count != 0 {
+        // values pair up with variables by position: once the first statement has values, their
+        // count must match its variables, otherwise appending shifts the values of `next`
+        // (fewer values: the last one may expand; more values: the surplus lands on `next`)
+        if first.variables_len() != first_value_count && first_value_count != 0 {
             return false;
         }
 
